@@ -6,7 +6,9 @@ correspondence: real code vs Lean model `Core/Assembly.lean` (driver ops c08.get
 oracle/search : on the real code only: (1) dense re-assembly by explicit loops with bc rows/cols zeroed,
                 bc diagonal and the constant, (2) stiffness: symmetry, x >= 0 -> PSD, rigid-body modes in the
                 null space, (3) mass: total mass rho*V*sum(x) per direction, (4) Poisson: constants annihilated,
-                energy of a linear field k*|a|^2*V*sum(x)
+                energy of a linear field k*|a|^2*V*sum(x), (5) element matrices vs their DEFINITION (int B^T D B dV,
+                rho int N^T N dV, k int grad N^T grad N dV) by an independent 4-point Gauss-Legendre rule with B and the
+                textbook D written out in the harness
 """
 import hashlib
 import json
@@ -344,6 +346,131 @@ def oracle_poisson(gen, P, dom):
     return None
 
 
+# ------------------------------------------------------------------------------------------------
+# independent element matrices FROM THE DEFINITION (not from the code's integration routine):
+#   K_e = int B^T D B dV,  M_e = rho int N^T N dV,  P_e = k int grad N^T grad N dV
+# evaluated with a 4-point Gauss-Legendre rule per axis (exact: the integrands are polynomials of degree <= 2
+# per coordinate), B written out here from the shape-function derivatives, D from the textbook formulas.
+# ------------------------------------------------------------------------------------------------
+def textbook_D(E, nu, kind):
+    """kind in {'strain', 'stress', '3d'}; engineering-shear convention"""
+    E, nu = float(E), float(nu)
+    if kind == "stress":
+        c = E / (1.0 - nu ** 2)
+        return c * np.array([[1.0, nu, 0.0], [nu, 1.0, 0.0], [0.0, 0.0, (1.0 - nu) / 2.0]])
+    c = E / ((1.0 + nu) * (1.0 - 2.0 * nu))
+    if kind == "strain":
+        return c * np.array([[1.0 - nu, nu, 0.0], [nu, 1.0 - nu, 0.0], [0.0, 0.0, (1.0 - 2.0 * nu) / 2.0]])
+    D = np.zeros((6, 6))
+    D[:3, :3] = c * nu
+    D[np.arange(3), np.arange(3)] = c * (1.0 - nu)
+    D[np.arange(3, 6), np.arange(3, 6)] = c * (1.0 - 2.0 * nu) / 2.0
+    return D
+
+
+def strain_displacement(dN):
+    """B for u = [u0x, u0y(, u0z), u1x, ...]: rows [xx, yy, (zz, yz, zx,) xy], engineering shear"""
+    dim, nn = dN.shape
+    if dim == 2:
+        B = np.zeros((3, 2 * nn))
+        B[0, 0::2] = dN[0]
+        B[1, 1::2] = dN[1]
+        B[2, 0::2] = dN[1]
+        B[2, 1::2] = dN[0]
+        return B
+    B = np.zeros((6, 3 * nn))
+    B[0, 0::3] = dN[0]
+    B[1, 1::3] = dN[1]
+    B[2, 2::3] = dN[2]
+    B[3, 1::3] = dN[2]
+    B[3, 2::3] = dN[1]
+    B[4, 0::3] = dN[2]
+    B[4, 2::3] = dN[0]
+    B[5, 0::3] = dN[1]
+    B[5, 1::3] = dN[0]
+    return B
+
+
+def plane_kind(plane, dim):
+    if dim == 3:
+        return "3d"
+    p = str(plane).lower()
+    if "strain" in p:
+        return "strain"
+    if "stress" in p:
+        return "stress"
+    return None
+
+
+def reference_elmat(gen, dom):
+    """element matrix from the definition; None when the case has no defined reference (invalid plane mode)"""
+    from numpy.polynomial.legendre import leggauss
+    dim = dom.dim
+    siz = [float(v) for v in gen["s"]]
+    thick = siz[2] if dim == 2 else 1.0
+    xi, wq = leggauss(4)
+    kind = gen["kind"]
+    nn = 2 ** dim
+    if kind == "stiffness":
+        pk = plane_kind(gen.get("plane", "strain"), dim)
+        if pk is None:
+            return None
+        D = textbook_D(gen["E"], gen["nu"], pk) * thick
+        ref = np.zeros((nn * dim, nn * dim))
+    elif kind == "mass":
+        ndof = int(gen["ndof"])
+        ref = np.zeros((nn * ndof, nn * ndof))
+    else:
+        ref = np.zeros((nn, nn))
+    import itertools
+    for idx in itertools.product(range(4), repeat=dim):
+        pos = np.zeros(3)
+        w = 1.0
+        for a, i in enumerate(idx):
+            pos[a] = xi[i] * siz[a] / 2.0
+            w *= wq[i] * siz[a] / 2.0
+        if kind == "mass":
+            N = np.asarray(dom.eval_shape_fun(pos), dtype=float)
+            Nm = np.zeros((ndof, nn * ndof))
+            for c in range(ndof):
+                Nm[c, c::ndof] = N
+            ref += w * float(gen["mat"]) * thick * (Nm.T @ Nm)
+        else:
+            dN = np.asarray(dom.eval_shape_fun_der(pos), dtype=float)
+            if kind == "stiffness":
+                B = strain_displacement(dN)
+                ref += w * (B.T @ D @ B)
+            else:
+                ref += w * float(gen["mat"]) * thick * (dN.T @ dN)
+    return ref
+
+
+def oracle_definition(gen, m, dom):
+    """the module's element matrix equals the integral that defines it"""
+    kind = gen.get("kind")
+    if kind not in ("stiffness", "mass", "poisson"):
+        return None
+    if kind == "stiffness":
+        nu = float(gen["nu"])
+        if nu in (-1.0, 0.5, 1.0):
+            return None
+    ref = reference_elmat(gen, dom)
+    if ref is None:
+        return None
+    Ke = np.asarray(m.elmat, dtype=float)
+    if Ke.shape != ref.shape:
+        return f"{kind} element matrix has shape {Ke.shape}, the definition gives {ref.shape}"
+    sc = float(np.abs(ref).max())
+    err = float(np.abs(Ke - ref).max())
+    if not err <= 1e-11 * max(sc, 1e-300):
+        i, j = np.unravel_index(np.argmax(np.abs(Ke - ref)), ref.shape)
+        what = {"stiffness": "int B^T D B dV", "mass": "rho int N^T N dV", "poisson": "k int grad N^T grad N dV"}[kind]
+        mat = ({"E": gen["E"], "nu": gen["nu"], "plane": gen.get("plane")} if kind == "stiffness" else {"mat": gen["mat"]})
+        return (f"{kind} element matrix differs from its definition {what}: entry [{i},{j}] = {float(Ke[i, j])!r}, definition "
+                f"{float(ref[i, j])!r} (max diff {err:.3e}, scale {sc:.3e}); sizes {[float(v) for v in gen['s']]}, {mat}")
+    return None
+
+
 def property_oracles(gen):
     """oracles 2-4 on the unconstrained matrix of a physical case (valid material data assumed)"""
     if gen["op"] != "physical":
@@ -354,6 +481,9 @@ def property_oracles(gen):
     A, m, dom = r[1]
     K = dense_of(A)
     out = []
+    why = oracle_definition(gen, m, dom)
+    if why:
+        out.append(why)
     why = oracle_reassembly(dict(gen, bc=None, addc=None, bcdiag="default"), A, m, dom, exact=False)
     if why:
         out.append(why)
@@ -744,6 +874,12 @@ def stream_elmat(ctx, batch):
     first = [True]
     for gen in elmat_gens(ctx):
         r = call_impl(impl_elmat, gen)
+        if r[0] == "ok":   # oracle on the real code: element matrix vs its defining integral
+            rr = call_impl(oracle_definition, gen, r[1][1], _domain(gen))
+            why = f"definition oracle raised {rr[2][:300]}" if rr[0] == "err" else rr[1]
+            if why:
+                ctx.oracle_fail(why, gen)
+            ctx.branch("oracle.definition")
         req = dict({"m": "c08.elmat"}, **elmat_fields(gen))
         ctx.branch(f"elmat.{gen['kind']}.{_dim(gen)}d" + (".err" if r[0] == "err" else ""))
 
